@@ -82,10 +82,6 @@ Definition tag_take_from : M (tag * bool) :=
   o <- tag_take_opt_from ;;
   match o with Some r => ret r | None => cerr end.
 
-(* octets visible through the limit: what slice() can show *)
-Definition visible (s : src) : list N :=
-  match lim s with None => rem s | Some l => firstN l (rem s) end.
-
 (* the peek loop of Tag::take_from_if over the visible octets b :: v1 *)
 Definition tag_peek (b : N) (v1 : list N) : M tag :=
   let d0 := clear_cons b in
